@@ -540,6 +540,21 @@ fn sendtos(ops: &[Op]) -> Vec<(&Vec<u8>, &SocketAddr)> {
     ops.iter().filter_map(|o| if let Op::SendTo(_, b, a) = o { Some((b, a)) } else { None }).collect()
 }
 
+/// does the real builder accept the only configuration that can issue sequence 0 with Paris over IPv6?
+fn builder_accepts_paris6_sequence_zero() -> bool {
+    use std::sync::OnceLock;
+    static V: OnceLock<bool> = OnceLock::new();
+    *V.get_or_init(|| {
+        trippy_core::Builder::new(IpAddr::V6(Ipv6Addr::new(0x2001, 0xdb8, 0, 0, 0, 0, 0, 2)))
+            .protocol(Protocol::Udp)
+            .multipath_strategy(trippy_core::MultipathStrategy::Paris)
+            .port_direction(trippy_core::PortDirection::new_fixed_src(5000))
+            .initial_sequence(0)
+            .build()
+            .is_ok()
+    })
+}
+
 /// evaluate the property statement on what the implementation did
 fn oracle(c: &Case, ops: &[Op], res: &str) -> String {
     let v6 = c.src.len() == 16;
@@ -549,6 +564,11 @@ fn oracle(c: &Case, ops: &[Op], res: &str) -> String {
     let paris = c.flags & 1 != 0;
     let dublin = c.flags & 2 != 0 && !paris;
     let raw_udp = c.proto == "udp" && c.privileged;
+    if raw_udp && v6 && paris && c.seq == 0 && in_range(c) && !builder_accepts_paris6_sequence_zero() {
+        // sequence 0 is issuable only with initial_sequence 0 (C07: initial <= sequence), which the real
+        // Builder::build refuses for this cell: outside "all builder-accepted configurations"
+        return "ok:outside(paris_v6_sequence_zero_not_issuable)".to_string();
+    }
     if raw_udp && v6 && dublin && in_range(c) {
         // the strategy guarantees 0 <= sequence - initial_sequence and the payload fits the 976-octet buffer (C07)
         if c.seq < c.iseq || usize::from(c.seq - c.iseq) + 6 > 976 {
